@@ -59,6 +59,24 @@ CHECKS = {
              'operations over 6 ids are executed; the exception type and the accepted/refused verdict are compared with '
              'validity predicates, batch contents with a list model after every operation.',
         note='trusted: validity predicates in vmon/monitors/c06.py; float ids and rejection of valid values are not judged'),
+    'C07': dict(
+        category='exploration', design_ref='DESIGN.md §3 C07',
+        technique='runtime monitor: loop-back client->dispatcher execution compared with direct twin invocation, wire-document oracle',
+        text='Call programs of 1..4 calls/notifications over probe methods (returning, raising typed / unregistered / arbitrary '
+             'errors, really suspending coroutines) are executed in all ten notations by the real sync and async clients whose '
+             'transport is the real sync / async dispatcher, under four id generators, strict on/off and two error base classes; '
+             'the single wire document, the value / exception reaching the caller, server-side executions and equality across '
+             'notations are judged.',
+        note='trusted: twin table in vmon/models/server.py, vmon/models/wire.py; known finding D7 (uuid id generator)'),
+    'C08': dict(
+        category='fault_enumeration', design_ref='DESIGN.md §3 C08',
+        technique='runtime monitor: scripted-transport fault enumeration judged by an id-matching reference model',
+        text='For batches of 1..4 calls (+notifications; ids from 1, from 0, strings incl. "") every permutation of the correct '
+             'response array x success/error mixes x {omit, duplicate, unasked id, retyped / boolean / fractional / null id}, '
+             'batch-level errors and garbage bodies are returned by a scripted transport to the real clients (strict on/off, '
+             'send and call, also re-sending the same request object); accept / IdentityError / DeserializationError, request '
+             'linking and call-order attribution of unique result tokens are compared with the model.',
+        note='trusted: vmon/models/client_match.py; null-id elements inside arrays and non-JSON bodies are not judged'),
 }
 
 NOT_BUILT_REASON = 'no check registered yet in this round (monitor under construction, see DESIGN.md §3)'
